@@ -25,7 +25,7 @@ MODES = ['both-empty', 'left-empty', 'right-empty', 'left-ends-first-after-misma
          'both-end-on-match', 'left-ends-first-after-match', 'right-ends-first-after-match']
 OPS = ['join', 'leftjoin', 'rightjoin', 'outerjoin', 'lookupjoin', 'antijoin']
 REQUIRED = ['mode:' + m for m in MODES] + ['op:' + o for o in OPS] + ['op:crossjoin',
-            'none-key-left+right-empty', 'none-key-right+left-empty', 'ragged-input', 'natural-key', 'lkey!=rkey', 'compound-key', 'presorted', 'presorted-ragged', 'key-by-index', 'key-index-0']
+            'none-key-left+right-empty', 'none-key-right+left-empty', 'ragged-input', 'natural-key', 'lkey!=rkey', 'compound-key', 'presorted', 'presorted-ragged', 'key-by-index', 'key-index-0', 'chunked-sort-of-right-input']
 
 
 def required(tier):
@@ -34,7 +34,7 @@ def required(tier):
 
 def _mk(op, left, right, **kw):
     c = {'op': op, 'left': left, 'right': right, 'key': None, 'lkey': None, 'rkey': None, 'missing': None,
-         'lprefix': None, 'rprefix': None, 'presorted': False}
+         'lprefix': None, 'rprefix': None, 'presorted': False, 'buffersize': None}
     c.update(kw)
     return c
 
@@ -143,6 +143,9 @@ def cases(ctx):
                 kw['missing'] = rng.choice(['M', 0, (), pool[0]])
         if rng.random() < 0.2:
             kw['presorted'] = True
+        elif rng.random() < 0.2:
+            # the same relational result is due when the inputs are sorted through chunk files (first partner = first in table order)
+            kw['buffersize'] = rng.choice([1, 2])
         yield _mk(op, left, right, **kw)
     for i in range(ctx.pick(1000, 10000)):
         nt = rng.randint(2, 3)
@@ -234,6 +237,10 @@ def judge(case, ctx):
         b = presort(right, rsq, rk)
         if any(len(r) != len(a[0]) for r in a[1:]) or any(len(r) != len(b[0]) for r in b[1:]):
             ctx.seen('presorted-ragged')
+    if case.get('buffersize') is not None:
+        kw['buffersize'] = case['buffersize']
+        if len(right) - 1 > case['buffersize']:
+            ctx.seen('chunked-sort-of-right-input')
     fn = getattr(petl, op)
     got = util.attempt_rows(lambda: fn(a, b, **kw))
     if isinstance(got, util.Raised):
